@@ -2644,14 +2644,15 @@ PPL::Grid::frequency(const Linear_Expression& expr,
   }
 
   // Space dimension is 0: if empty, then return false;
-  // otherwise the frequency is 1 and the value is 0.
+  // otherwise `expr' is constant: the frequency is 0 and the value
+  // is the inhomogeneous term of `expr'.
   if (space_dim == 0) {
     if (is_empty()) {
       return false;
     }
     freq_n = 0;
     freq_d = 1;
-    val_n = 0;
+    val_n = expr.inhomogeneous_term();
     val_d = 1;
     return true;
   }
